@@ -48,11 +48,14 @@ TECHNIQUE = (
 )
 LEVEL_TEXT = (
     "Every cell of the grid 11 codecs (10 + UTF-8 with BOM) x declaration styles (## comment, # comment, input_encoding, both "
-    "agreeing, both conflicting, none, BOM variants incl. alias spellings and contradicting comments) x carriers (text, "
-    "${'lit'}, <% %> literal, def-argument default, <%text>, ## comment, <%! %>) x every string of <=2 (quick) / <=3 "
-    "(thorough) characters over a 4 / 5 character per-codec repertoire x paths (bytes, file, module directory, re-opened, "
-    "re-opened in a fresh interpreter, TemplateLookup) x 5 / 6 output configurations is compiled and rendered by the real "
-    "code; and every single byte >= 0x80 (thorough: every two-byte sequence with a high lead byte) of every codec is fed "
+    "agreeing, both conflicting, none; thorough also vim-style / CRLF / alias-spelled comments and a second conflict; BOM "
+    "variants incl. alias spellings, contradicting comments and BOM + input_encoding) x carriers (text, <% %> literal, "
+    "def-argument default; thorough also ${'lit'}, <%text>, ## comment, <%! %>) x every string of <=2 characters over a "
+    "4-character per-codec repertoire (thorough: <=3 over 4 characters plus <=2 over 5 = 94 strings for the ten general styles, "
+    "30 for the BOM-specific variants) x paths (bytes, file, module directory, re-opened, re-opened in a fresh interpreter; "
+    "thorough also TemplateLookup) x 5 / 6 output configurations is compiled and rendered by the real code (quick: the three "
+    "error-handler outputs are crossed with the bytes and module-directory paths only); and every single byte >= 0x80 "
+    "(thorough: every two-byte sequence with a high lead byte, UTF-8 3/4-byte boundary sequences) of every codec is fed "
     "through three frames and two paths.  Complete within those bounds; no sampling."
 )
 LEVEL_NOTE = (
@@ -80,11 +83,14 @@ ASSUMPTIONS = [
 ]
 BOUNDS = {
     "quick": {
-        "codecs": 11, "repertoire": 4, "max_chars": 2, "carriers": 3, "declarations": "6 (+12 BOM variants)",
-        "paths": "bytes,file,mod,reopen,newproc for outputs (None),(same codec,strict); bytes,mod for the 3 error-handler outputs", "outputs": 5, "neg": "all single bytes >=0x80 x 3 frames x 2 paths x {comment,input_encoding}",
+        "codecs": 11, "repertoire": 4, "max_chars": 2, "strings": 20, "carriers": 3, "declarations": "6 (+6 BOM variants)",
+        "paths": "bytes,file,mod,reopen,newproc for outputs (None),(same codec,strict); bytes,mod for the 3 error-handler outputs",
+        "outputs": 5, "neg": "all single bytes >=0x80 x 3 frames x 2 paths x {comment,input_encoding[,none]}",
     },
     "thorough": {
-        "codecs": 11, "repertoire": 5, "max_chars": 3, "carriers": 7, "declarations": "10 (+24 BOM variants)",
+        "codecs": 11, "repertoire": 5, "max_chars": 3,
+        "strings": "94 (<=3 over 4 chars + <=2 over 5 chars) for the ten general declaration styles, 30 (<=2 over 5 chars) for the 17 BOM-specific variants",
+        "carriers": 7, "declarations": "10 (+17 BOM variants)",
         "paths": "bytes,file,mod,reopen,newproc,lookup", "outputs": 6,
         "neg": "single bytes as quick + all two-byte sequences with lead >=0x80 (frame mid, comment) + UTF-8 3/4-byte boundary sequences",
     },
@@ -389,6 +395,12 @@ _CHILD = r"""
 import sys, json, os
 sys.path.insert(0, %(repo)r)
 from mako.template import Template
+def J(v):
+    if isinstance(v, str):
+        return v
+    if isinstance(v, bytes):
+        return {"__bytes__": v.hex()}
+    return {"__repr__": repr(v)}
 ents = json.load(sys.stdin)
 for e in ents:
     res = {}
@@ -397,25 +409,17 @@ for e in ents:
         res["ino0"] = ino
         t = Template(filename=e["fn"], uri=e["uri"], module_directory=e["md"], **e["kw"])
         res["ino1"] = os.stat(e["mpath"]).st_ino if os.path.exists(e["mpath"]) else None
-        res["u"] = t.render_unicode()
+        res["u"] = J(t.render_unicode())
         try:
-            r = t.render()
-            if isinstance(r, bytes):
-                res["rb"] = r.hex()
-            else:
-                res["rs"] = r
+            res["r"] = J(t.render())
         except UnicodeError as x:
             res["r_exc"] = type(x).__name__
-        res["src"] = t.source
+        res["src"] = J(t.source)
         if e.get("with_def"):
             d = t.get_def("f")
-            res["def_u"] = d.render_unicode()
+            res["def_u"] = J(d.render_unicode())
             try:
-                r = d.render()
-                if isinstance(r, bytes):
-                    res["def_rb"] = r.hex()
-                else:
-                    res["def_rs"] = r
+                res["def_r"] = J(d.render())
             except UnicodeError as x:
                 res["def_r_exc"] = type(x).__name__
     except BaseException as x:
@@ -437,14 +441,9 @@ def run_child(entries, st):
     out = []
     for l in lines:
         d = json.loads(l)
-        if "rb" in d:
-            d["r"] = bytes.fromhex(d.pop("rb"))
-        elif "rs" in d:
-            d["r"] = d.pop("rs")
-        if "def_rb" in d:
-            d["def_r"] = bytes.fromhex(d.pop("def_rb"))
-        elif "def_rs" in d:
-            d["def_r"] = d.pop("def_rs")
+        for k, v in list(d.items()):
+            if isinstance(v, dict):
+                d[k] = bytes.fromhex(v["__bytes__"]) if "__bytes__" in v else v["__repr__"]
         out.append(d)
     return out
 
@@ -470,12 +469,14 @@ class Judge:
         self.ref_code = ref_code
         self.bom = bom
         self._failed = False
+        self.any_failed = False
 
     def viol(self, oracle, path, out, detail, expected=None, observed=None):
         # one report per observation: the first oracle that fails (later ones are consequences)
         if self._failed:
             return
         self._failed = True
+        self.any_failed = True
         d = self.declname
         if d.startswith("bom"):
             dc = d
@@ -620,15 +621,31 @@ def build_source(codec, decl, carrier, L):
     return raw
 
 
+BASE_DECLS = ("comment", "comment1", "ie", "both", "conflict-total", "none", "conflict-ascii", "comment-vim", "comment-crlf", "comment-alias")
+
+
+def string_sets(codec, tier, seed):
+    """-> (strings for the ten general declaration styles, strings for the BOM-specific variants)"""
+    if tier == "quick":
+        full = list(strings(repertoire(codec, seed, 4), 2))
+        return full, full
+    rep5 = repertoire(codec, seed, 5)
+    small = list(strings(rep5, 2))
+    full = list(strings(rep5[:4], 3))
+    have = set(full)
+    full += [w for w in small if w not in have]
+    return full, small
+
+
 def source_cases(tier, seed):
     quick = tier == "quick"
     carriers = CARRIERS_QUICK if quick else CARRIERS_THOROUGH
     for codec in CODECS:
-        rep = repertoire(codec, seed, 4 if quick else 5)
+        full, small = string_sets(codec, tier, seed)
         ds = decls(codec, tier)
         for decl in ds:
             for carrier in carriers:
-                for L in strings(rep, 2 if quick else 3):
+                for L in (full if decl[0] in BASE_DECLS else small):
                     yield codec, decl, carrier, L
 
 
@@ -721,9 +738,10 @@ def run_source_case(codec, decl, carrier, L, outs, paths, env, st, seen=None, li
             vals = {repr(v) for (p, o), v in us.items() if p == path}
             if vals:
                 st.oracles["render_unicode_ignores_output_encoding"] += 1
-            if len(vals) > 1:
+            if len(vals) > 1 and not jd.any_failed:
+                # (cannot happen while every cell equals the closed form; kept as an explicit oracle of the statement)
                 jd._failed = False
-                jd.viol("render_unicode_varies", path, (None, "strict"), "render_unicode depends on output_encoding", None, sorted(vals))
+                jd.viol("render_unicode_varies", path, ("ALL", "ALL"), "render_unicode depends on output_encoding", None, sorted(vals))
     env.total += 1
     if env.total % 701 == 1:
         st.sample({"codec": codec, "decl": declname, "carrier": carrier, "L": L, "source_bytes": raw.hex(), "input_encoding": ie,
@@ -1000,9 +1018,10 @@ def replay(case):
                 return None, "unknown declaration"
             out = tuple(case["out"])
             out0 = ("SAME", out[1]) if (out[0] is not None and out[0] == true_codec(codec) and out[1] == "strict") else out
+            outs = [out0] if out[0] != "ALL" else OUTS_THOROUGH
             path = case["path"]
             paths = [path] if path not in ("reopen", "newproc") else ["mod", path]
-            run_source_case(codec, decl, case["carrier"], case["L"], [out0], paths, env, st)
+            run_source_case(codec, decl, case["carrier"], case["L"], outs, paths, env, st)
             flush_newproc(env, st)
         else:
             codec = case["codec"]
